@@ -1,6 +1,7 @@
 #!/bin/bash
 # applies each behaviour-preserving refactoring in selftest/refactors to a scratch copy of /repo HEAD and runs every
 # claimed check (quick): all must stay silent.  usage: refactortest.sh [-v] [name ...]
+# GTREE_SRC=<dir> uses a scratch tree instead of /repo HEAD as the base.
 cd /verif
 [ -x bin/gtcheck ] || ./build.sh
 SNAP=$(mktemp /tmp/gtcheck.snap.XXXXXX); cp bin/gtcheck $SNAP; chmod +x $SNAP; export GTCHECK_BIN=$SNAP; trap "rm -f $SNAP" EXIT
